@@ -86,27 +86,26 @@ theorem get_image (src dst : Path) (t : Tree) (q : Path) :
       by_cases hq : under dst q = true
       · simp only [hq, ↓reduceIte]
         by_cases he : dst ++ k.drop src.length = q
-        · have : k = src ++ q.drop dst.length := by
+        · have hk' : k = src ++ q.drop dst.length := by
             rw [← he]
             simp only [List.drop_left]
             exact under_split hk
-          simp [he, this]
-        · have : k ≠ src ++ q.drop dst.length := by
+          rw [if_pos he, if_pos hk']
+        · have hk' : k ≠ src ++ q.drop dst.length := by
             intro e2
             apply he
             rw [e2]
             simp only [List.drop_left]
             exact (under_split hq).symm
-          simp only [he, ↓reduceIte, this]
-          rw [ih]
+          rw [if_neg he, if_neg hk', ih]
           simp [hq]
       · have he : dst ++ k.drop src.length ≠ q := by
           intro e2
           apply hq
           rw [← e2]
           exact under_append _ _
-        simp only [he, ↓reduceIte]
-        rw [ih]
+        rw [if_neg he, ih]
+        simp [hq]
     · simp only [hk, Bool.false_eq_true, ↓reduceIte]
       rw [ih]
       by_cases hq : under dst q = true
@@ -175,17 +174,14 @@ theorem walk_isdir {t : Tree} : ∀ {rest cur : Path},
 def WF (t : Tree) : Prop := ∀ p s n, get t (p ++ [s]) = some n → get t p = some .dir
 
 theorem WF.ancestor {t : Tree} (h : WF t) : ∀ (r : Path) {p : Path} {n : Node}, r ≠ [] →
-    get t (p ++ r) = some n → get t p = some .dir := by
-  intro r
-  induction r using List.reverseRecOn with
-  | nil => intro p n hne; exact absurd rfl hne
-  | append_singleton r s ih =>
-    intro p n _ hg
-    rw [← List.append_assoc] at hg
-    have hd := h _ _ _ hg
-    by_cases hr : r = []
-    · subst hr; simpa using hd
-    · exact ih hr hd
+    get t (p ++ r) = some n → get t p = some .dir
+  | [], _, _, hne, _ => absurd rfl hne
+  | s :: r', p, n, _, hg => by
+    by_cases hr : r' = []
+    · subst hr; exact h _ _ _ hg
+    · have hg' : get t ((p ++ [s]) ++ r') = some n := by simpa using hg
+      have hd := WF.ancestor h r' hr hg'
+      exact h _ _ _ hd
 
 /-- under WF, an entry below a non-directory does not exist -/
 theorem WF.no_child_of_nondir {t : Tree} (h : WF t) {p r : Path} (hr : r ≠ []) (hp : get t p ≠ some .dir) :
